@@ -3,7 +3,7 @@ import LunarVerif.Spec.C18Sharing
 import LunarVerif.Proofs.C18Publish
 import LunarVerif.Proofs.C18Expire
 import LunarVerif.Spec.C18Expire
-import LunarVerif.Proofs.C18Vacuum
+import LunarVerif.Proofs.C18VacuumQ
 /-!
 # C18 — Concurrent transactions do not corrupt or share engine state
 
@@ -292,6 +292,33 @@ theorem no_key_forgotten_driven (ops : List (String ⊕ (Nat × Option String)))
       | inl k => exact inv_vadd s0 k h
       | inr p => obtain ⟨adv, d⟩ := p; exact inv_advance _ _ _ _ h
   exact (this ops _ ⟨Or.inl rfl, (by intro sn h; cases h), (by intro n h; cases h), (by intro k hk; simp at hk)⟩).tracked
+
+/-- The judge's predicate is true of every model run at the granularity the harness drives: whatever
+    registrations and clock advances (with a registration forced into a pass), a key whose LATEST
+    registration's deadline lies before the last completed pass is no longer in the map. -/
+theorem vacuum_judge_holds (ttl tick : Nat) (ops : List (String ⊕ (Nat × Option String))) :
+    let s := ops.foldl (fun s o => match o with
+      | .inl k => vadd s k
+      | .inr (adv, d) => advance (adv + 1) s (s.now + adv) d) ({ ttl := ttl, tick := tick } : St)
+    holds s s.map = true := by
+  intro s
+  apply holds_of_Q
+  have : ∀ (ops : List (String ⊕ (Nat × Option String))) (s0 : St), Q s0 →
+      Q (ops.foldl (fun s o => match o with
+        | .inl k => vadd s k
+        | .inr (adv, d) => advance (adv + 1) s (s.now + adv) d) s0) := by
+    intro ops
+    induction ops with
+    | nil => intro s0 h; exact h
+    | cons o os ih =>
+      intro s0 h
+      apply ih
+      cases o with
+      | inl k => exact vaddQ s0 k h
+      | inr p => obtain ⟨adv, d⟩ := p; exact advanceQ _ _ _ _ h (Nat.le_add_right _ _)
+  apply this
+  exact ⟨⟨rfl, rfl⟩, List.Pairwise.nil, (by intro e he; simp at he), (by intro e he; simp at he),
+    (by intro k hk; simp at hk), (by intro p hp; cases hp)⟩
 
 /-- non-vacuity: B is registered while the pass that expires A reads the clock; the next pass after B's
     deadline removes B -/
